@@ -282,5 +282,10 @@ FIXED = [
     ("append-of-another-secrecy-then-sum", 'from nada_dsl import *\n\ndef nada_main():\n    p = Party(name="P")\n    u = PublicInteger(Input(name="u", party=p))\n    s = SecretInteger(Input(name="s", party=p))\n    votes: list[SecretInteger] = []\n    votes.append(u)\n    total = sum(votes)\n    return [Output(total, "o", p), Output(s, "s", p)]\n'),
     ("annotated-list-of-other-items", 'from nada_dsl import *\n\ndef nada_main():\n    p = Party(name="P")\n    s = SecretInteger(Input(name="s", party=p))\n    x: list[int] = ["a"]\n    y = x[0]\n    return [Output(s, "o", p)]\n'),
     ("list-display-of-mixed-secrecy", 'from nada_dsl import *\n\ndef nada_main():\n    p = Party(name="P")\n    u = PublicInteger(Input(name="u", party=p))\n    s = SecretInteger(Input(name="s", party=p))\n    l = [s, u]\n    first = l[1]\n    return [Output(first, "o", p)]\n'),
+    # an annotated assignment whose value has another (less secret) class (seventh seeding round)
+    ("annotated-secret-assigned-a-literal", 'from nada_dsl import *\n\ndef nada_main():\n    p = Party(name="P")\n    s = SecretInteger(Input(name="s", party=p))\n    total: SecretInteger = Integer(0)\n    return [Output(total, "t", p), Output(s, "s", p)]\n'),
+    ("annotated-secret-assigned-a-public", 'from nada_dsl import *\n\ndef nada_main():\n    p = Party(name="P")\n    u = PublicInteger(Input(name="u", party=p))\n    s = SecretInteger(Input(name="s", party=p))\n    x: SecretInteger = u\n    y = x + s\n    z = x * u\n    return [Output(y, "y", p), Output(z, "z", p)]\n'),
+    ("annotated-public-assigned-a-literal", 'from nada_dsl import *\n\ndef nada_main():\n    p = Party(name="P")\n    s = SecretInteger(Input(name="s", party=p))\n    k: PublicInteger = Integer(3)\n    w = k * k\n    return [Output(s * w, "o", p)]\n'),
+    ("module-level-name-rebound-after-a-helper-used-it", 'from nada_dsl import *\n\nk = Integer(2)\n\ndef scale(x: SecretInteger) -> SecretInteger:\n    return x * k\n\nk = 5\n\ndef nada_main():\n    p = Party(name="P")\n    s = SecretInteger(Input(name="s", party=p))\n    y = scale(s)\n    return [Output(y, "o", p)]\n'),
     ("typed-constructor-of-int", 'from nada_dsl import *\n\ndef nada_main():\n    p = Party(name="P")\n    s = SecretInteger(Input(name="s", party=p))\n    n = 3\n    a = PublicInteger(10)\n    b = SecretInteger(n + 1)\n    return [Output(s, "o", p)]\n'),
 ]
